@@ -48,19 +48,47 @@ def trace_section(exe, what, work, tier):
             dropped += 1
     if dropped:
         open(tr, "w").writelines(good)
-    t = vlib.tlc("CompTrace", "CompTrace.cfg", workers=1, env={"TRACE": tr}, timeout=7200, java_opts=["-Xmx8g", "-Xss64m"])
-    if t.rc != 0:
-        t = vlib.tlc("CompTrace", "CompTrace.cfg", workers=1, env={"TRACE": tr}, timeout=7200, java_opts=["-Xmx8g", "-Xss64m"], quiet=False)
+    # large traces are cut into chunks (at the start of a component instance, so that every event stays with the
+    # instance it refers to; each chunk starts with the Reset of its section) and validated by parallel TLC runs
+    lines = open(tr, errors="replace").read().split("\n")
+    lines = [x for x in lines if x]
+    starts = ('{"e":"LSNew"', '{"e":"DACBuild"', '{"e":"Code"', '{"e":"BSBuild"', '{"e":"SeqBuild"', '{"e":"RPIn"', '{"e":"VB"', '{"e":"NP"', '{"e":"Reset"')
+    target = max(4000, len(lines) // 12)
+    chunks, cur, sec = [], [], None
+    for line in lines:
+        if line.startswith('{"e":"Reset"'):
+            sec = line
+        if len(cur) >= target and line.startswith(starts):
+            chunks.append(cur)
+            cur = [sec] if sec and not line.startswith('{"e":"Reset"') else []
+        cur.append(line)
+    if cur:
+        chunks.append(cur)
+    files = []
+    for i, c in enumerate(chunks):
+        f = "%s.c%d" % (tr, i)
+        open(f, "w").write("\n".join(c) + "\n")
+        files.append(f)
+
+    def one(f):
+        t = vlib.tlc("CompTrace", "CompTrace.cfg", workers=1, env={"TRACE": f}, timeout=7200, java_opts=["-Xmx4g", "-Xss64m"])
         if t.rc != 0:
-            raise RuntimeError("CompTrace failed to run on %s (rc=%s)" % (what, t.rc))
+            t = vlib.tlc("CompTrace", "CompTrace.cfg", workers=1, env={"TRACE": f}, timeout=7200, java_opts=["-Xmx4g", "-Xss64m"], quiet=False)
+            if t.rc != 0:
+                raise RuntimeError("CompTrace failed to run on %s (rc=%s)" % (what, t.rc))
+        return t
+    with cf.ThreadPoolExecutor(max_workers=6) as ex:
+        results = list(ex.map(one, files))
     bad = []
-    for line in t.out.split("\n"):
-        m = _bad_re.match(line)
-        if m:
-            b = json.loads(m.group(1).replace('\\"', '"').replace("\\\\", "\\"))
-            b["_trace"] = tr
-            bad.append(b)
-    nev = max(0, (t.distinct or 1) - 1)
+    nev = 0
+    for t in results:
+        nev += max(0, (t.distinct or 1) - 1)
+        for line in t.out.split("\n"):
+            m = _bad_re.match(line)
+            if m:
+                b = json.loads(m.group(1).replace('\\"', '"').replace("\\\\", "\\"))
+                b["_trace"] = tr
+                bad.append(b)
     first, inst = [], 0
     with open(tr) as fh:
         for i, line in enumerate(fh):
